@@ -71,6 +71,16 @@ REF_DE = {
     "scylla_cql_core::deserialize::value::UdtIterator": {"UserDefinedType"},
     "<tuple>": {"Tuple"},
 }
+# carriers that exist only under the `full-serialization` feature set (thorough tier, config `full`); confirmed against
+# docs/source/data-types/{date,time,timestamp,varint,decimal}.md. Secret<V>/SecretBox<V> serialize only (transparent).
+REF_OPT_SER = {
+    "bigdecimal::BigDecimal": {N + "Decimal"}, "num_bigint::bigint::BigInt": {N + "Varint"},
+    "chrono::naive::date::NaiveDate": {N + "Date"}, "time::date::Date": {N + "Date"},
+    "chrono::naive::time::NaiveTime": {N + "Time"}, "time::time::Time": {N + "Time"},
+    "chrono::datetime::DateTime<chrono::offset::utc::Utc>": {N + "Timestamp"}, "time::offset_date_time::OffsetDateTime": {N + "Timestamp"},
+    "secrecy::Secret<V>": ALL, "secrecy::SecretBox<V>": ALL,
+}
+REF_OPT_DE = {k: v for k, v in REF_OPT_SER.items() if not k.startswith("secrecy::")}
 # carriers whose two directions may legitimately differ (reason above)
 ASYMMETRIC = {"std::collections::hash::set::HashSet", "alloc::collections::btree::set::BTreeSet"}
 
@@ -98,12 +108,16 @@ def head(s):
 
 
 def r1_r2(ctx, facts, config):
-    r1 = ctx.rule("R1", "acceptance matrix (serialize / type_check) equals the reference, directions agree [%s]" % config, floor=188 if config == "default" else 0)
-    r2 = ctx.rule("R2", "check before write: no writer call under a shape serialize rejects [%s]" % config, floor=56 if config == "default" else 0)
+    r1 = ctx.rule("R1", "acceptance matrix (serialize / type_check) equals the reference, directions agree [%s]" % config, floor=188)
+    r2 = ctx.rule("R2", "check before write: no writer call under a shape serialize rejects [%s]" % config, floor=56)
     A = Accept(facts)
     U = A.universe
     tables = {}
-    for tr, meth, ref, tag in ((SV, "serialize", REF_SER, "ser"), (DV, "type_check", REF_DE, "de")):
+    ref_ser, ref_de = dict(REF_SER), dict(REF_DE)
+    if config == "full":
+        ref_ser.update(REF_OPT_SER)
+        ref_de.update(REF_OPT_DE)
+    for tr, meth, ref, tag in ((SV, "serialize", ref_ser, "ser"), (DV, "type_check", ref_de, "de")):
         table = {}
         for im in [i for i in facts.impls if i.get("trait_def") == tr and i["crate"] == "scylla_cql_core"]:
             p = impl_method(facts, im, meth)
@@ -336,15 +350,10 @@ def r5(ctx, facts):
 
 def check(ctx):
     facts = ctx.facts("default")
-    for fn in (lambda c, f: r1_r2(c, f, "default"), r3, r4, r5):
+    config = ctx.alias.get("default", "default")   # the thorough tier re-runs this module over `full` and `unstable`
+    for fn in (lambda c, f: r1_r2(c, f, config), r3, r4, r5):
         try:
             fn(ctx, facts)
         except AnchorLost as ex:
             ctx.rule("ANCHOR", "anchors").fail("anchor-lost:%d" % len(ctx.rules), str(ex))
-    if ctx.tier == "thorough":
-        try:
-            ff = ctx.facts("full")
-            r1_r2(ctx, ff, "full")
-        except AnchorLost as ex:
-            ctx.rule("ANCHORfull", "anchors (full)").fail("anchor-lost", str(ex))
     ctx.assumptions += ["reference acceptance matrix transcribed from docs/source/data-types and frozen", "third-party SerializeValue/DeserializeValue impls out of scope"]
